@@ -366,14 +366,14 @@ func fixedFamilies(level string, thorough bool) []*family {
 	for _, seq := range sequencesOver([]any{0, 1, "", "a", nil, vList(), vList(0)}, 3) {
 		truthSeqs = append(truthSeqs, tup(vList(seq...)), tup(vTuple(seq...)))
 	}
-	truthSeqs = append(truthSeqs, tup(vElems("")), tup(vElems("a")), tup(vElems("aBa")), tup(vRange(0, 0, 1)), tup(vRange(0, 2, 1)), tup(vRange(1, 3, 1)), tup("ab"), tup(7), tup(vDict("", 1)), tup(vDict()))
+	truthSeqs = append(truthSeqs, tup(vElems("")), tup(vElems("a")), tup(vElems("aBa")), tup(vCodepoints("")), tup(vCodepoints("aBa")), tup(vRange(0, 0, 1)), tup(vRange(0, 2, 1)), tup(vRange(1, 3, 1)), tup("ab"), tup(7), tup(vDict("", 1)), tup(vDict()))
 	add("seq", []any{"any", "all", "reversed"}, truthSeqs, one(noKw))
 
 	var ordSeqs []any
 	for _, seq := range sequencesOver([]any{0, 1, 2, "a", "B"}, 3) {
 		ordSeqs = append(ordSeqs, tup(vList(seq...)), tup(vTuple(seq...)))
 	}
-	ordSeqs = append(ordSeqs, tup(vElems("Ba")), tup(vElems("aaB")), tup(vRange(2, -1, -1)), tup(vRange(0, 3, 2)), tup("ba"), tup(7), tup(vDict("b", 1, "a", 2)))
+	ordSeqs = append(ordSeqs, tup(vElems("Ba")), tup(vElems("aaB")), tup(vCodepoints("Ba")), tup(vRange(2, -1, -1)), tup(vRange(0, 3, 2)), tup("ba"), tup(7), tup(vDict("b", 1, "a", 2)))
 	sortKw := []any{noKw, vDict("reverse", true), vDict("reverse", false), vDict("key", vFn("neg")), vDict("key", vFn("neg"), "reverse", true), vDict("key", vFn("len"))}
 	add("seq", one("sorted"), ordSeqs, sortKw)
 	mmKw := []any{noKw, vDict("key", vFn("neg")), vDict("key", vFn("len"))}
@@ -400,7 +400,7 @@ func fixedFamilies(level string, thorough bool) []*family {
 	add("seq", []any{"min", "max"}, pairSeqs, byFirst[:2])
 	add("seq", []any{"min", "max"}, pairMulti, byFirst[:2])
 	// zip of 0..3 sequences, enumerate
-	zipPool := []any{vList(), vList(0), vList(0, 1), vTuple(0, 1, 2), vRange(5, 7, 1), vList("a", "b", "c"), vElems(""), vElems("a"), vElems("aB")}
+	zipPool := []any{vList(), vList(0), vList(0, 1), vTuple(0, 1, 2), vRange(5, 7, 1), vList("a", "b", "c"), vElems(""), vElems("a"), vElems("aB"), vCodepoints(""), vCodepoints("a"), vCodepoints("aB")}
 	var zips []any
 	for _, seq := range sequencesOver(zipPool, 3) {
 		zips = append(zips, vTuple(seq...))
